@@ -58,6 +58,12 @@ type Gen struct {
 	pctx      []*panicCtx
 	closures  map[string]closureInfo
 	fnByConst map[string]*ssa.Function
+	cellFn      map[string]closureInfo
+	frameOn      bool
+	frameAllowed map[string][]string
+	frameNow0    string
+	frameN       int
+	cur          *Frame
 	regions     []knownFinding
 	regionTerms map[string]string
 }
@@ -254,6 +260,7 @@ func (g *Gen) locRootRead(s *State, l *Loc) string {
 }
 
 func (g *Gen) locRootWrite(s *State, l *Loc, v string) {
+	g.frameWrite(l.comp, l.ref)
 	h := g.get(s, l.comp)
 	switch l.kind {
 	case "field", "cell":
